@@ -181,7 +181,9 @@ def run(ctx):
     cases += gen(ctx, d, [23997, 24000, 24030], [86340, 86370, 86399, 86400])       # at 180 E, 10 S band edge
     cases += gen(ctx, d, [3, 30, 61], [43170, 43199, 43200, 43230])                 # near the pole row, 0 E tile edge
     if quick:
-        cases = ctx.rng.sample(cases, 90)
+        cases = ctx.rng.sample(cases, 80)
+        other = gen(ctx, d, near(24000), near(9600 * 5))          # the 10 S / 20 E corner
+        cases += ctx.rng.sample(other, 16) + [c for c in other if c["rect"][0] % 30 == 0 and c["rect"][2] % 30 == 0][:8]
     else:
         # every other four-tile corner of the world, a random eighth of the rectangles each
         for vb in (12000, 24000):
